@@ -402,6 +402,58 @@ pub fn generate(level: usize) -> Vec<Scenario> {
         out.extend(pairs("F9-steal-demote", &cfg, &setup, &alpha));
     }
 
+    // ---- F12: exhausted local reservation with frees piled up in the reserved tree's
+    // global entry (counter sync path of get_local) racing drain / frees / other gets
+    {
+        for (n, cfg) in [
+            ("2tree-simple1", Config::new(2 * TREE_FRAMES, s1.clone(), InitMode::FreeAll)),
+            ("3tree-simple2", Config::new(3 * TREE_FRAMES, s2.clone(), InitMode::FreeAll)),
+        ] {
+            // the whole tree through slot 0 of class 0: local counter 0
+            let setup0 = vec![Op::Get {
+                order: TREE_ORDER,
+                class: 0,
+                local: Some(0),
+                target: None,
+            }];
+            let r = probe(&cfg, &setup0);
+            let Some(t) = got(&r[0]) else { continue };
+            let mut setup = setup0.clone();
+            // free one part without naming the slot: lands in the global entry
+            let (part_o, part2) = if TREE_HUGE > 1 {
+                (HUGE_ORDER, t + HUGE_FRAMES)
+            } else {
+                (7, t + 128)
+            };
+            setup.push(Op::Put {
+                frame: t,
+                order: part_o,
+                class: 0,
+                local: None,
+            });
+            let alpha = vec![
+                a(Op::Get { order: 0, class: 0, local: Some(0), target: None }),
+                a(Op::Get { order: 6, class: 0, local: Some(0), target: None }),
+                a(Op::Drain),
+                u(Op::Put { frame: part2, order: part_o, class: 0, local: None }),
+                u(Op::Put { frame: part2 + (1 << part_o), order: part_o.min(7), class: 0, local: Some(0) }),
+                a(Op::Get { order: 0, class: 0, local: None, target: None }),
+                a(Op::Get { order: 0, class: 1, local: Some(0), target: None }),
+            ];
+            let alpha: Vec<AOp> = alpha
+                .into_iter()
+                .filter(|x| match &x.ops[0] {
+                    TOp::Do(Op::Put { frame, order, .. }) => frame + (1 << order) <= t + TREE_FRAMES,
+                    _ => true,
+                })
+                .collect();
+            out.extend(pairs(&format!("F12-sync-{n}"), &cfg, &setup, &alpha));
+            if level > 0 {
+                out.extend(triples(&format!("F12-sync-{n}"), &cfg, &setup, &alpha[..4.min(alpha.len())]));
+            }
+        }
+    }
+
     // ---- F10: two operations per thread (allocate, then free own block)
     {
         let cfg = Config::new(TREE_FRAMES, s1.clone(), InitMode::FreeAll);
